@@ -312,11 +312,15 @@ def run_m4(case, R):
     k = case["k"]
     transport = case.get("decode", "ip")
     code = case["code"]
-    full = tlv_enc([(T_STATE, b"\x04")] + ([(refhap.T_ERROR, bytes([code]))] if code else []))
-    n = 1 + case["n"] % (len(full) - 1)
-    raw = full[:n]
+    err = bytes(case["err"]) if "err" in case else (bytes([code]) if code else None)
+    full = tlv_enc([(T_STATE, b"\x04")] + ([(refhap.T_ERROR, err)] if err is not None else []))
+    if case.get("whole"):
+        raw = full          # the complete error reply, whatever the value of its Error item (defined code or not, empty, two bytes)
+    else:
+        n = 1 + case["n"] % (len(full) - 1)
+        raw = full[:n]
     R.nt()
-    R.cls("m4-truncate", "decode:" + transport)
+    R.cls("m4-whole-error" if case.get("whole") else "m4-truncate", "decode:" + transport)
     acc = RefPairVerify(world.ident, h("acc-eph", k), allow_resume=False)
     res, exc = None, None
     with ephemeral(h("ios-eph", k)):
@@ -336,7 +340,8 @@ def run_m4(case, R):
             R.fail("C01.honest-rejected", f"M4 = 06 01 04 rejected with {type(exc).__name__}: {exc}", exc=type(exc).__name__)
         return
     if res is not None:
-        R.fail("C01.forged-reply-accepted", f"M4 cut to {raw.hex()} (of {full.hex()}) decode={transport}: keys returned", family="m4-truncate")
+        R.fail("C01.forged-reply-accepted", f"M4 {'= ' if case.get('whole') else 'cut to '}{raw.hex()} (of {full.hex()}) decode={transport}: keys returned",
+               family="m4-error" if case.get("whole") else "m4-truncate")
 
 
 def enum_tape(tier):
@@ -355,6 +360,12 @@ def enum_m4(tier):
             for n in range(5 if code else 2):
                 i += 1
                 yield {"k": SEED * 32452843 + i, "acc_id": "AA:BB:CC:DD:EE:FF", "ios_id": "ios-1", "decode": dec, "code": code, "n": n}
+        for err in ([c] for c in range(0, 256)) if tier == "thorough" else ([0], [1], [2], [6], [7], [8], [9], [0x80], [255]):
+            i += 1
+            yield {"k": SEED * 32452843 + i, "acc_id": "AA:BB:CC:DD:EE:FF", "ios_id": "ios-1", "decode": dec, "code": 1, "err": err, "whole": True, "n": 0}
+        for err in ([], [2, 0], [0, 2], [2, 2]):
+            i += 1
+            yield {"k": SEED * 32452843 + i, "acc_id": "AA:BB:CC:DD:EE:FF", "ios_id": "ios-1", "decode": dec, "code": 1, "err": err, "whole": True, "n": 0}
 
 
 def run_resume(case, R):
@@ -578,7 +589,7 @@ SPEC = Property(
         Layer("faults-gen", run_full, strategy=full_cases, n={"quick": 16000, "thorough": 300000}, min_nontrivial=1000),
         Layer("tape-replay", run_tape, enumerate=enum_tape, exhaustive=True,
               space="honest exchange recorded, 0..2 further exchanges, then M2/M4 replayed to a new exchange; exchange keys of all exchanges pairwise distinct", min_nontrivial=10),
-        Layer("m4-truncated", run_m4, enumerate=enum_m4, exhaustive=True, space="honest and error M4 (codes 1..7, 255) cut at every byte x {ip, ble} decode", min_nontrivial=50),
+        Layer("m4-truncated", run_m4, enumerate=enum_m4, exhaustive=True, space="honest and error M4 (codes 1..7, 255) cut at every byte; whole M4 with an Error item of every value (quick: 9 values; thorough: all 256), empty and two-byte values; x {ip, ble} decode", min_nontrivial=50),
         Layer("resume-families", run_resume, enumerate=enum_resume, exhaustive=True, space="every resume fault incl. all 128 tag bits and 64 session-id bits, chain 0/1", min_nontrivial=100),
         Layer("resume-gen", run_resume, strategy=resume_cases, n={"quick": 4000, "thorough": 60000}, min_nontrivial=100),
         *C01_BLE_LAYERS,
